@@ -654,7 +654,11 @@ cdef class ParticleArray:
 
         if update_constants:
             for const in parray.constants:
-                self.constants.setdefault(const, parray.constants[const])
+                if const not in self.constants:
+                    # copy: the two arrays must not share one constant.
+                    self.add_constant(
+                        const, parray.constants[const].get_npy_array().copy()
+                    )
 
         if num_extra_particles > 0 and align:
             self.align_particles()
